@@ -45,6 +45,14 @@ type StringDecoder interface {
 // Most of the heavy lifting is handled by the mapstructure library. A custom decoder is used to handle
 // decoding string values to the supported primitives.
 func Decode(input interface{}, output interface{}) error {
+	// mapstructure panics on a chain of pointers (or interfaces) that ends in a nil pointer
+	for v := reflect.ValueOf(input); v.Kind() == reflect.Ptr || v.Kind() == reflect.Interface; v = v.Elem() {
+		if v.IsNil() {
+			input = nil
+			break
+		}
+	}
+
 	decoder, err := mapstructure.NewDecoder(
 		&mapstructure.DecoderConfig{ //nolint: exhaustruct
 			Result:     output,
